@@ -31,8 +31,62 @@ def run(ctx):
     if not q:
         exact += [2.0 ** 10, 2.0 ** -7]
     mc.scaling_run(ctx, PID, KIND, exact, other)
+    ratemap_leg(ctx)
+
+
+def ratemap_leg(ctx):
+    """Growth beyond the listed statement: util.transform_coordinates_by_ratemap (the general,
+    piecewise-constant change of genome coordinates; a constant map is C07's rescaling) against
+    spec/RateMap.tla on TSGen tree sequences."""
+    import json
+
+    import numpy as np
+    import tskit
+    from tsdate import util
+
+    from .. import build
+    q = ctx.quick
+    consts = {"NS": 2, "NI": 2, "L": 2 if q else 3, "MaxMuts": 1, "TreeFilter": json.dumps("any"),
+              "Rates": "{0,1,3}", "EmitDone": "FALSE"}
+    cfg = ctx.write_cfg("ratemap_j1.cfg", constants=consts, invariants=["Monotone", "SitesStayDistinct", "EdgesWellFormed"])
+    ctx.tlc("RateMap", cfg, workers=8, required_actions=("Gen", "PickRates"))
+    consts.update(EmitDone="TRUE", L=2)
+    cfg = ctx.write_cfg("ratemap_j2.cfg", constants=consts, invariants=["EmitInv"])
+    insts = ctx.tlc("RateMap", cfg, workers=4, coverage=False).rec("inst")
+    insts = ctx.rng.sample(insts, min(len(insts), 1200 if q else 20000))
+    for k, inst in enumerate(insts):
+        ts = build.forest_ts(inst)
+        rates = [float(r) for r in inst["rate"]]
+        if k % 3 == 0:  # NaN (missing) rate behaves like a zero rate
+            if rates[0] == 0:
+                rates[0] = np.nan
+            if rates[-1] == 0:
+                rates[-1] = np.nan
+        rm = tskit.RateMap(position=[2.0 * i for i in range(inst["L"] + 1)], rate=rates)
+        ctx.evaluations += 1
+        ctx.traces += 1
+        try:
+            out = util.transform_coordinates_by_ratemap(ts, rm)
+        except Exception as ex:  # noqa: BLE001
+            ctx.violation(f"C07/ratemap/{type(ex).__name__}", inst, f"{type(ex).__name__}: {ex}", subcheck="ratemap")
+            continue
+        edges = sorted((int(e.left), int(e.right), int(e.parent), int(e.child)) for e in out.edges())
+        muts = sorted((int(out.sites_position[m.site]), int(m.node)) for m in out.mutations())
+        want_e = sorted(tuple(x) for x in inst["edges"])
+        want_m = sorted(tuple(x) for x in inst["newmuts"])
+        if (int(out.sequence_length) != inst["seqlen"] or edges != want_e or muts != want_m
+                or out.num_nodes != ts.num_nodes or out.num_sites != len({m[0] for m in want_m})):
+            ctx.violation("C07/ratemap/differs-from-RateMap", inst,
+                          f"code seqlen {out.sequence_length} edges {edges} muts {muts} sites {out.num_sites}; "
+                          f"spec seqlen {inst['seqlen']} edges {want_e} muts {want_m}", subcheck="ratemap")
+        if 0 in inst["rate"] and inst["muts"]:
+            ctx.nontriv("R" + json.dumps([inst["trees"], inst["muts"], inst["rate"]]))
+    ctx.count("ratemap_replays", len(insts))
 
 
 def replay(ctx, body):
     harness.setup_repo_env(ctx.work)
+    if body.get("subcheck") == "ratemap":
+        ratemap_leg(ctx)  # the generated scope is small: re-run the whole leg
+        return
     mc.scaling_replay(ctx, PID, KIND, body)
